@@ -411,6 +411,33 @@ def gen_world(rnd, depth=None):
                 continue
             f.body.append(n)
             n_use += 1
+    # uses written directly at the top level of a module or submodule (the copies become top-level nodes; those of a
+    # submodule are merged into its module by the include): at most one chain of directly expanded groupings per module
+    # family, so that no two expansions put the same names side by side
+    def direct_closure(g, acc):
+        if id(g) in acc:
+            return acc
+        acc.add(id(g))
+        for n in g[3]:
+            if n[0] == "uses":
+                direct_closure(n[2], acc)
+        return acc
+    taken = {}
+    for f in frames:
+        fam = f.mod["belongs"] or f.mod["name"]
+        if r.random() < 0.45 and w.groupings:
+            g = r.choice(w.groupings)
+            cl = direct_closure(g, set())
+            if top_actions(g) or (cl & taken.setdefault(fam, set())):
+                continue
+            refs = w.refs_to(f, g)
+            if not refs:
+                continue
+            ref = r.choice(refs)
+            f.body.append(uses(ref, g))
+            w.uses_log.append((f, ref, g))
+            taken[fam] |= cl
+            w.direct_top = getattr(w, "direct_top", 0) + 1
     # plain data and augments holding uses
     for m in w.mods:
         m["body"] += plain_nodes(w, 2, r.randint(0, 2) if m["belongs"] else r.randint(1, 2), act=False)
@@ -598,6 +625,47 @@ def instance_paths(w):
                         walk(b, st + [io], origin, owner, False)
     for m in w.mods:
         walk(m["body"], [], None, m["belongs"] or m["name"], False)
+    return out
+
+
+def expected_prefixes(w):
+    """(tree module, steps) -> the prefix Entry.Prefix has to show: the one of the module (for a submodule: its belongs-to
+    prefix) in whose TEXT the node is written -- for a copy that is the module defining the grouping, the scope in which
+    the grouping's types and identities resolve -- whatever module uses it and whatever include merges it"""
+    out = {}
+
+    def walk(body, steps, pfx, owner, in_choice):
+        for n in body:
+            k = n[0]
+            if k == "uses":
+                walk(n[2][3], steps, w.home[id(n[2])].mod["prefix"], owner, in_choice)
+                continue
+            if k == "grouping":
+                continue
+            nm = n[2] if k in ("any", "rpc") else n[1]
+            st = steps + ([nm, nm] if in_choice and k != "case" else [nm])
+            out[(owner, tuple(st))] = pfx
+            if k in ("container", "list", "case", "notification"):
+                walk(n[-1], st, pfx, owner, False)
+            elif k == "choice":
+                walk(n[-1], st, pfx, owner, True)
+            elif k == "rpc":
+                for io, b in (("input", n[3]), ("output", n[4])):
+                    if b is not None:
+                        out[(owner, tuple(st + [io]))] = pfx
+                        walk(b, st + [io], pfx, owner, False)
+    for m in w.mods:
+        walk(m["body"], [], m["prefix"], m["belongs"] or m["name"], False)
+    tops = {}
+    for m in w.mods:
+        for n in m["body"]:
+            if n[0] == "container":
+                tops[n[1]] = m["belongs"] or m["name"]
+    for m in w.mods:
+        for apath, body in m["augments"]:
+            steps = [x.split(":")[-1] for x in apath.strip("/").split("/")]
+            if steps[0] in tops:
+                walk(body, steps, m["prefix"], tops[steps[0]], False)
     return out
 
 
@@ -1264,6 +1332,34 @@ def run(res, tier, seed, proof):
                       dict(kind="model-faithful", ml_case=lines_ml[2 * wi], ml_case_inlined=lines_ml[2 * wi + 1]))
         stats["faithful_pairs"] += 1
         if stu == "ok":
+            # faithful copy includes Entry.Prefix: every node shows the prefix of the module in whose text it is written
+            w = worlds[wi]
+            badp = []
+            index = {}
+
+            def put(owner, nd, path):
+                index[(owner, path)] = nd
+                for c in nd.get("children") or []:
+                    put(owner, c, path + (c["name"],))
+                for io in ("input", "output"):
+                    if nd.get(io):
+                        put(owner, nd[io], path + (io,))
+            for md in ju["runs"][-1]["modules"]:
+                if not md["sub"]:
+                    put(md["name"], md["tree"], ())
+            for (owner, steps), pfx in expected_prefixes(w).items():
+                nd = index.get((owner, steps))
+                if nd is None:
+                    continue
+                stats["prefixes_compared"] = stats.get("prefixes_compared", 0) + 1
+                if nd.get("prefix", "") != pfx:
+                    badp.append("/%s/%s: prefix %r, want %r" % (owner, "/".join(steps), nd.get("prefix", ""), pfx))
+            stats["direct_top_level_uses"] = stats.get("direct_top_level_uses", 0) + getattr(w, "direct_top", 0)
+            if badp:
+                violation("faithful copy: Entry.Prefix of a node is not the prefix of the module that defines it: %s"
+                          % "; ".join(badp[:3]),
+                          dict(kind="prefix", go_case=lines_go[2 * wi], mismatches=badp[:20],
+                               text="\n".join(sg.render_module(m) for m in s_uses)))
             if ju["runs"][-1]["treeviol"]:
                 violation("tree invariant violated after a clean Process: %s" % ju["runs"][-1]["treeviol"][:3],
                           dict(kind="treeviol", go_case=lines_go[2 * wi], treeviol=ju["runs"][-1]["treeviol"]))
